@@ -286,13 +286,23 @@ def gen_stream_fault(rng, raw, kinds):
     raise ValueError(kind)
 
 
-def gen_data_damage(rng, raw):
-    """overwrite bytes confined to the data section after its 4-byte header, and section 5"""
+def gen_data_damage(rng, raw, alone=False):
+    """overwrite bytes confined to the data section and section 5. The data section includes its own
+    4-octet header: a metadata-only decode 'never reads the data section', so a damaged section 4 length must
+    not stop it either (region 'hdr4'); for a lone message (alone=True) the input may also END inside the data
+    section (region 'cut')"""
     w = bufrgen.walk(raw)
     o4, l4 = w['sections'][4]
     lo, hi = o4 + 4, len(raw)       # hi includes the stop signature
-    region = rng.choice(['data', 'data', 'stop', 'both'])
+    region = rng.choice(['data', 'data', 'stop', 'both', 'hdr4'] + (['cut'] if alone else []))
     ops = []
+    if region == 'hdr4':
+        nl = rng.choice([0, 3, 4, l4 - 1, l4 + 1, 200, 0xFFFFFF, rng.randrange(1 << 24)])
+        if nl == l4 or nl < 0:
+            nl = l4 + 2
+        return {'kind': 'data', 'ops': [[o4, int(nl).to_bytes(3, 'big').hex()]], 'region': 'hdr4'}
+    if region == 'cut':
+        return {'kind': 'data', 'ops': [], 'cut': rng.randint(lo, max(lo, o4 + l4)), 'region': 'cut'}
     if region in ('data', 'both') and o4 + l4 > lo:
         dhi = o4 + l4
         n = rng.choice([1, 1, 2, 4, 16, dhi - lo])
@@ -658,7 +668,7 @@ def _gen_plan(family, rng, pool, tier):
         if large and rng.random() < 0.04:
             e = rng.choice(large)
         raw = bytes.fromhex(e['hex'])
-        fault = gen_data_damage(rng, raw) if rng.random() < 0.85 else None
+        fault = gen_data_damage(rng, raw, alone=True) if rng.random() < 0.85 else None
         it = _item(e, fault)
         it['adm_info'] = e['adm']['info']['params']
         it['truth'] = e.get('truth', {}).get('header') if e.get('truth') else None
@@ -1510,6 +1520,8 @@ def oracle_c17(plan, tr):
         tl = it.get('truth_len') or {}
         for idx, params in secs:
             for n, v in params:
+                if idx == 4 and fk == 'hdr4':
+                    continue            # the damage is exactly that field
                 if n == 'section_length' and tl.get(str(idx)) is not None and v != repr(tl[str(idx)]):
                     out.append({'property': 'C17', 'clause': 'C17.a-truth', 'name': '%d.section_length' % idx})
     return out[:3]
